@@ -137,7 +137,7 @@ theorem gen_details :
     `time.Millisecond` is the unit `ms` of `not_checkDurations_ms`) -/
 theorem gen_checkRAs_guards :
     Gen.Verify.checkRAs_guards =
-      ["a.CurrentHopLimit != b.CurrentHopLimit",
+      ["a.CurrentHopLimit != 0 && b.CurrentHopLimit != 0 && a.CurrentHopLimit != b.CurrentHopLimit",
        "a.ManagedConfiguration != b.ManagedConfiguration",
        "a.OtherConfiguration != b.OtherConfiguration",
        "!checkDurations(a.ReachableTime, b.ReachableTime, time.Millisecond)",
